@@ -224,8 +224,7 @@ class Comparison:
             ne = ne_.N(msg_norm(expected))
             na = rename_try(na, try_names(na))
             ne = rename_try(ne, try_names(ne))
-            extra, missing = diff_bags(na, ne)
-            exp_gens = [canon_gen(g, {}, 0) for g in ne[1]] if ne[0] == "bag" else [canon(ne, {}, 0)]
+            extra, missing, exp_gens = diff_bags(na, ne)
             imprecise = list(dict.fromkeys(na_.opaque + self.ev.problems))
             cut = any("cut-short" in x for x in extra)
             # definite, whatever else is imprecise: a `raise` inside a loop ends the loop at that element
